@@ -514,6 +514,11 @@ CATALOGUE['C14'] += [
   (F, 'R-PARTIALRAISE', 'camxfiles/one3d/Memmap.py', "        if self.__records % lays != 0:\n            raise ValueError('Incomplete time step: %d records of %d layers'\n                             % (self.__records, lays))\n", ""),
 ]
 
+CATALOGUE['C10'] += [
+  (F, 'R-VARLISTWIDTH', _IO, "        keys = [k for k in _varlist2keys(varliststr) if k in self.variables]", "        keys = [k for k in varliststr.split() if k in self.variables]"),
+  (F, 'R-VARLISTWIDTH', _IO, "    if len(varliststr) % 16 == 0:\n        return [varliststr[i:i + 16].strip()\n                for i in range(0, len(varliststr), 16)]\n    else:\n        return varliststr.split()", "    return varliststr.split()"),
+  (S, None, _IO, "    if len(varliststr) % 16 == 0:\n        return [varliststr[i:i + 16].strip()\n                for i in range(0, len(varliststr), 16)]\n    else:\n        return varliststr.split()", "    if len(varliststr) % 16 != 0:\n        return varliststr.split()\n    return [varliststr[i:i + 16].strip()\n            for i in range(0, len(varliststr), 16)]"),
+]
 CATALOGUE['C08'] += [
   (F, 'R-ONESTEP', 'camxfiles/temperature/Memmap.py', "                break\n        else:\n            # a single time step: every record belongs to it\n            i = times.shape[0]\n", "                break\n"),
   (F, 'R-ONESTEP', 'camxfiles/height_pressure/Memmap.py', "        else:\n            # a single time step: every record belongs to it\n            i = times.shape[0]\n", "        else:\n            pass\n"),
